@@ -148,6 +148,11 @@ RECIPES.update({
 })
 
 RECIPES.update({
+    'mpi_vegas': dict(unit='mpidrv', name='mpi_vegas', sel='vpinst::VCb', opts=dict(_DRV_OPTS, free_calls={
+        'MPI_Comm_rank': (lambda em, n, args, dst: 'vp_mpi_comm_rank(%s, %s)' % (em.emit(args[0]), em.emit(args[1]))),
+        'MPI_Comm_size': (lambda em, n, args, dst: 'vp_mpi_comm_size(%s, %s)' % (em.emit(args[0]), em.emit(args[1])))})),
+})
+RECIPES.update({
     'rng_vegas_chkpt_add': dict(unit='chkpt', name='add', cls='chkpt_with_rng', cls_targs_has='vegas_chkpt', self='rng_vegas_chkpt'),
     'rng_vegas_chkpt_generator': dict(unit='chkpt', name='generator', cls='chkpt_with_rng', cls_targs_has='vegas_chkpt', self='rng_vegas_chkpt'),
     'rng_multi_channel_chkpt_add': dict(unit='chkpt', name='add', cls='chkpt_with_rng', cls_targs_has='multi_channel_chkpt', self='rng_multi_channel_chkpt'),
